@@ -31,7 +31,7 @@ pub struct PatGen<'a> {
     pub vmode: bool,
 }
 
-const LITS: &[&str] = &["a", "b", "c", "a", "b", "é", "K", "s", "\u{17F}", "\u{212A}", "ß", "\u{1F600}", "\\n", "x", "_", "1", "-", " "];
+const LITS: &[&str] = &["a", "b", "c", "a", "b", "é", "K", "s", "\u{17F}", "\u{212A}", "ß", "\u{1F600}", "\\n", "x", "_", "1", "-", " ", "\\ud800", "\\udc00", "\\ud83d\\ude00", "\\u{1F600}", "\\xe9", "\\0"];
 const CLASSES: &[&str] = &[
     "[ab]", "[^a]", "\\w", "\\d", "[a-c]", "\\W", "\\s", "\\S", "\\D", "[^\\w]", "[a-zé]", "[\\d_]", "[^]", "[]", "[b-]",
     "[\\u{1F600}a]", "[k\\u017F]", "[^\\n]", "[A-Z]", "[é-ü]",
